@@ -359,6 +359,19 @@ class VhdlAssembler:
                     self.apply(ctx, **{**kwargs, "parent_scope": alias_scope})
                 )
 
+            # The instantiation of an external entity refers to its library by name
+            # ('entity <library>.<name>'): no object declared in this entity
+            # is allowed to hide the library, reserve its name like 'work'.
+            def reserve_library_names(instances):
+                for inst in instances:
+                    if isinstance(inst, vhdl.Block):
+                        reserve_library_names(inst._subblocks)
+                    elif isinstance(inst, vhdl.EntityInst):
+                        if inst._entity.path() is not None:
+                            entity_scope.reserve_name(inst._entity.path().split(".")[0])
+
+            reserve_library_names(blocks)
+
             ret = vhdl.Entity(inp.info(), alias_scope, blocks)  # type: ignore
 
             arch = vhdl.Architecture(alias_scope, ret, blocks)
